@@ -14,7 +14,7 @@ def short(s, n):
 
 def main():
     rows = []
-    caught = missed = 0
+    caught = missed = outside = 0
     for sid in sorted(os.listdir(SEEDED)):
         d = os.path.join(SEEDED, sid)
         if not os.path.exists(os.path.join(d, "patch.diff")):
@@ -29,17 +29,21 @@ def main():
         own = meta.get("property", sid.split("-")[0])
         own_caught = any(t.get("caught") and name.startswith(own) for name, t in trials.items())
         any_caught = bool(got)
-        if trials:
+        oos = bool(meta.get("out_of_scope"))
+        if trials and not oos:
             if any_caught:
                 caught += 1
             else:
                 missed += 1
-        status = "—" if not trials else ("; ".join(got) if got else "**not caught**")
+        if oos:
+            outside += 1
+        status = "—" if not trials else ("; ".join(got) if got else ("not reported (outside the statement)" if oos else "**not caught**"))
         note = meta.get("note", "")
         rows.append(f"| `{sid}` | {own} | {short(meta.get('breaks', ''), 230)} | {', '.join('`' + os.path.basename(f) + '`' for f in files)} | {status}{' — ' + note if note else ''} |")
     table = ["| seeded change | targets | what it breaks | file | caught by (signatures) |", "|---|---|---|---|---|"] + rows
     table.append("")
-    table.append(f"{caught} of {caught + missed} tried seeded changes are reported by at least one check (quick tier).")
+    table.append(f"{caught} of {caught + missed} tried seeded changes are reported by at least one check (quick tier)"
+                 + (f"; {outside} further change(s) lie outside the statement they were aimed at and are not judged." if outside else "."))
     text = "\n".join(table)
     p = os.path.join(VERIF, "DESIGN.md")
     s = open(p).read()
